@@ -204,10 +204,14 @@ prop("C09", level="exploration", bounded=True,
           "flatten styles with unflatten, absolute/relative merge with a summing merge function, split + flatten(absolute), coordinate and payload "
           "updates at every depth}; seeded random depth 3-4 tensors with random permutations and (depth, levels, style) choices; all two-point 3-rank "
           "tensors under all 6 permutations. Each result's content map is compared with the image of the original's, results are checked for WF and "
-          "rank bookkeeping, inverses (inverse permutation, unflatten) are applied and compared. No deductive part: swizzleRanks is a dictionary- and "
-          "frontier-driven DFS rebuild, merge/unflatten go through sorted()/zip(*...)/recursive n-ary union, outside pyvc's subset; the per-element "
+          "rank bookkeeping, inverses (inverse permutation, unflatten) are applied and compared. Proved core (small): the coordinate map of flattening, "
+          "Fiber._flattenCoords, yields exactly the stated combination for each style (tuple / pair: (upper, lower); absolute: lower; relative: upper + lower; "
+          "linear: upper * shape + lower) on integer coordinates, and the insertion position flattenRanks computes with _coord2pos(coords=...) is the partition "
+          "point of the list being built. The transforms themselves are outside pyvc's subset: swizzleRanks is a dictionary- and "
+          "frontier-driven DFS rebuild, merge/unflatten go through sorted()/zip(*...)/recursive n-ary union; the per-element "
           "building blocks they share with other properties (union iterator, updatePayloads' callers) are covered under C04/C08.",
      note="Exploration level. Known finding: swapRanks rejects an empty fiber by assertion (pinned test).",
+     also=["Fiber._flattenCoords", "Fiber._coord2pos"],
      trusted_base=[])
 
 prop("C13", level="exploration", bounded=True,
